@@ -26,7 +26,15 @@ def run(ctx):
     if ctx.tier == 'thorough':
         tight.append(S.SetCfg('flat', cmp='mod', uvec='fixed', ucap=5, pool=3))
     single = lambda op: op not in ('insr', 'insl', 'rngc', 'fromv', 'asgv', 'steal')
-    SC.run(ctx, tight, lambda rng, cfg, k: S.gen_history(rng, cfg, 50, dom=(12 if cfg.cmp == 'less' else 40), ops_filter=single), n // 2,
+    def gen_tight(rng, cfg, k):
+        # every set of the pool starts well filled, so that |a| + |b| exceeds the capacity while the union still fits
+        dom = 12 if cfg.cmp == 'less' else 40
+        pre = []
+        for c in range(cfg.pool):
+            for x in rng.sample(range(dom), rng.randrange(dom // 2, dom - 1)):
+                pre.append(f'ins {c} {x}')
+        return pre + S.gen_history(rng, cfg, 40, dom=dom, ops_filter=single)
+    SC.run(ctx, tight, gen_tight, n // 2,
            nontrivial=lambda cfg, lines, obs: any(l.startswith('mrg') for l in lines), label='C03 tight fixed capacity')
     ctx.assume('heterogeneous (transparent) lookups and merge between different comparator types are not exercised by the harness yet')
     ctx.assume('bulk paths are modelled at specification level (stable sort + stable merge + keep-first unique = one-by-one insertion)')
